@@ -110,6 +110,17 @@ def check_conversion(acc, kind, u, v, x):
         acc.violation(f'C05/conv/inplace-differs/{site}', 'inplace == copy', case,
                       {'copy': [r.value, r.unit], 'inplace': [q2.value, q2.unit],
                        'same_object': r2 is q2})
+    # the converted object must behave as its public value/unit say (sub-kinds keep a second copy)
+    try:
+        dbl = q2 + q2
+        one = q2 * 1
+        if one.value != q2.value or one.unit != q2.unit or \
+                si.ulps_apart(float(dbl.value), 2.0 * float(q2.value)) > 2 or dbl.unit != q2.unit:
+            acc.violation(f'C05/conv/inplace-inconsistent-object/{site}', 'object converted in place computes with its public value and unit', case,
+                          {'value': q2.value, 'unit': q2.unit, 'x*1': [one.value, one.unit], 'x+x': [dbl.value, dbl.unit]})
+    except (ValueError, OverflowError):
+        pass
+    acc.transitions += 2
     # round trip
     back = r.to(u)
     acc.transitions += 1
